@@ -224,14 +224,15 @@ def _structured_session(rng, pfx):
     return ops
 
 
-def _free_session(rng, pfx):
-    """anything goes: consumable traces, matched ranks, thresholds, missing endCollect, illegal calls"""
+def _free_session(rng, pfx, legal=False):
+    """anything goes: consumable traces, matched ranks, thresholds, missing endCollect, illegal calls
+    (legal=True: the same without the calls that the class rejects)"""
     ops = []
     if rng.random() < 0.3:
-        ops.append(["setNumCachedUses", rng.choice([2, 3, 5, 1, 0])])
+        ops.append(["setNumCachedUses", rng.choice([2, 3, 5] if legal else [2, 3, 5, 1, 0])])
     if rng.random() < 0.15:
         ops.append(["matchRanks", rng.choice(RANKS + ["S"]), rng.choice(RANKS + ["S"])])
-    ops.append(["beginCollect", pfx if rng.random() < 0.9 else None])
+    ops.append(["beginCollect", pfx if (legal or rng.random() < 0.9) else None])
     cons = []
     for r in RANKS + ["S"]:
         for t in ["iter", "x"]:
@@ -250,6 +251,10 @@ def _free_session(rng, pfx):
     # matched rank uses, late trace declarations, threshold changes, consumption
     extra = []
     for _ in range(rng.randrange(0, 4)):
+        if legal:
+            extra.append(rng.choice([["getLabel", "S"], ["getLabel", "Q"], ["setNumCachedUses", rng.choice([2, 3, 4])],
+                                     ["associateShape", rng.choice(RANKS)], ["getIter"], ["isCollecting"]]))
+            continue
         extra.append(rng.choice([
             ["addUse", "S", rng.randrange(0, 5), rng.randrange(0, 3), rng.choice(["iter", "x"]), None],
             ["incIter", "S"], ["endIter", "S"], ["getLabel", "S"], ["getLabel", "Q"], ["getIndex", "S"],
@@ -262,7 +267,7 @@ def _free_session(rng, pfx):
         body.insert(rng.randrange(0, len(body) + 1), e)
     ops += body
     for r, t in cons:
-        if rng.random() < 0.85:
+        if legal or rng.random() < 0.85:
             ops.append(["consumeTrace", r, t])
     end = rng.random()
     if end < 0.8:
@@ -284,7 +289,7 @@ def gen_api(rng, tier):
         for combo in itertools.product(ALPHABET, repeat=n):
             ops = prelude + [list(o) for o in combo]
             yield {"prop": PROP, "kind": "api", "ops": ops + [["endCollect"]], "sess_start": -1}
-    nrand = 700 if tier == "quick" else 12000
+    nrand = 2000 if tier == "quick" else 60000
     for i in range(nrand):
         ops = []
         for _ in range(rng.choice([0, 1, 1, 2, 3])):
@@ -371,7 +376,7 @@ def _hist(rng, pfx):
                 s.append(["endCollect"])
             ops += s
         else:
-            ops += _free_session(rng, p)
+            ops += _free_session(rng, p, legal=True)
     return ops
 
 
@@ -385,7 +390,7 @@ def _mk_kernel(rng, loops, out, opranks, n=None, small=None):
         elif rng.random() < 0.06:
             t = []
         else:
-            t = H.gen_tree(rng, len(rk), n, pool, 0, p_absent=rng.choice([0.2, 0.4, 0.6]))
+            t = H.gen_tree(rng, len(rk), n, pool, 0, p_absent=rng.choice([0.05, 0.2, 0.4]))
         ops.append({"ranks": rk, "t": t})
     if out and rng.random() < 0.2:
         z = H.gen_tree(rng, len(out), n, pool, 0, p_absent=0.5)
@@ -397,7 +402,7 @@ def _mk_kernel(rng, loops, out, opranks, n=None, small=None):
             "n": n, "z": z, "ops": ops, "traces": _trace_choice(rng, loops), "pfx": rng.choice(PFX)}
     case["hist"] = _hist(rng, case["pfx"])
     # a format-"U" leaf rank, where the family allows it
-    if rng.random() < 0.08:
+    if rng.random() < 0.1:
         for o in ops:
             v = o["ranks"][-1]
             if v not in out and sum(1 for o2 in ops if v in o2["ranks"]) == 1 and len(o["ranks"]) >= 1:
@@ -421,11 +426,11 @@ def gen_kernel(rng, tier):
                 c["hist"] = [] if k % 5 else c["hist"]
                 c.pop("ushape", None)
                 yield c
-    reps = 12 if tier == "quick" else 250
+    reps = 30 if tier == "quick" else 1200
     for loops, out, opr in CLASSIC:
         for _ in range(reps):
             yield _mk_kernel(rng, list(loops), list(out), [list(o) for o in opr])
-    nrand = 500 if tier == "quick" else 12000
+    nrand = 1500 if tier == "quick" else 60000
     for _ in range(nrand):
         loops, out, opr = _random_shape(rng)
         yield _mk_kernel(rng, loops, out, opr)
